@@ -60,19 +60,27 @@ func distinctNames(prefix string, n int, sep string) string {
 
 var c20Families = map[string]func(n int) string{
 	// wide lists of *distinct* names in every list position of the grammar
-	"insert-column-list":        func(n int) string { return "INSERT INTO t (" + distinctNames("c", n, ", ") + ") VALUES (1" + strings.Repeat(", 1", n) + ")" },
+	"insert-column-list": func(n int) string {
+		return "INSERT INTO t (" + distinctNames("c", n, ", ") + ") VALUES (1" + strings.Repeat(", 1", n) + ")"
+	},
 	"insert-column-list-select": func(n int) string { return "INSERT INTO t (" + distinctNames("c", n, ", ") + ") SELECT * FROM u" },
 	"values-wide-row":           func(n int) string { return "INSERT INTO t VALUES (1" + strings.Repeat(", 1", n) + ")" },
 	"distinct-select-list":      func(n int) string { return "SELECT " + distinctNames("c", n, ", ") + " FROM t" },
 	"distinct-aliases":          func(n int) string { return "SELECT " + distinctNames("a AS c", n, ", ") + " FROM t" },
 	"returning-list":            func(n int) string { return "INSERT INTO t (a) VALUES (1) RETURNING " + distinctNames("c", n, ", ") },
 	"using-list":                func(n int) string { return "SELECT a FROM t JOIN u USING (" + distinctNames("c", n, ", ") + ")" },
-	"cte-column-list":           func(n int) string { return "WITH w (" + distinctNames("c", n, ", ") + ") AS (SELECT 1) SELECT * FROM w" },
-	"create-index-columns":      func(n int) string { return "CREATE INDEX i ON t (" + distinctNames("c", n, ", ") + ")" },
-	"on-conflict-set-list":      func(n int) string { return "INSERT INTO t (a) VALUES (1) ON CONFLICT (a) DO UPDATE SET " + distinctNames("c", n, " = 1, ") + " = 1" },
-	"distinct-from-list":        func(n int) string { return "SELECT a FROM " + distinctNames("t", n, ", ") },
-	"distinct-function-args":    func(n int) string { return "SELECT f(" + distinctNames("c", n, ", ") + ") FROM t" },
-	"partition-by-list":         func(n int) string { return "SELECT SUM(a) OVER (PARTITION BY " + distinctNames("c", n, ", ") + ") FROM t" },
+	"cte-column-list": func(n int) string {
+		return "WITH w (" + distinctNames("c", n, ", ") + ") AS (SELECT 1) SELECT * FROM w"
+	},
+	"create-index-columns": func(n int) string { return "CREATE INDEX i ON t (" + distinctNames("c", n, ", ") + ")" },
+	"on-conflict-set-list": func(n int) string {
+		return "INSERT INTO t (a) VALUES (1) ON CONFLICT (a) DO UPDATE SET " + distinctNames("c", n, " = 1, ") + " = 1"
+	},
+	"distinct-from-list":     func(n int) string { return "SELECT a FROM " + distinctNames("t", n, ", ") },
+	"distinct-function-args": func(n int) string { return "SELECT f(" + distinctNames("c", n, ", ") + ") FROM t" },
+	"partition-by-list": func(n int) string {
+		return "SELECT SUM(a) OVER (PARTITION BY " + distinctNames("c", n, ", ") + ") FROM t"
+	},
 	"one-long-line":     func(n int) string { return "SELECT a" + strings.Repeat(", a", n) + " FROM t" },
 	"many-lines":        func(n int) string { return "SELECT a\n" + strings.Repeat(", a\n", n) + "FROM t" },
 	"comment-lines":     func(n int) string { return strings.Repeat("-- c\n", n) + "SELECT 1" },
@@ -183,12 +191,67 @@ var c20Ops = map[string]c20Op{
 	"tokenize": {func(in string) (func(), bool) {
 		return func() { t, _ := tokenizer.New(); _, _ = t.Tokenize([]byte(in)) }, true
 	}},
-	"parse":   {func(in string) (func(), bool) { return func() { _, _ = gosqlx.Parse(in) }, true }},
-	"sql":     {parsed(func(t *ast.AST) { _ = t.SQL() })},
-	"format":  {parsed(func(t *ast.AST) { _ = t.Format(ast.FormatOptions{}) })},
-	"scan":    {parsed(func(t *ast.AST) { _ = security.NewScanner().Scan(t) })},
-	"scansql": {func(in string) (func(), bool) { return func() { _ = security.NewScanner().ScanSQL(in) }, true }},
-	"extract": {parsed(func(t *ast.AST) { _ = gosqlx.ExtractMetadata(t) })},
+	"parse":    {func(in string) (func(), bool) { return func() { _, _ = gosqlx.Parse(in) }, true }},
+	"sql":      {parsed(func(t *ast.AST) { _ = t.SQL() })},
+	"format":   {parsed(func(t *ast.AST) { _ = t.Format(ast.FormatOptions{}) })},
+	"scan":     {parsed(func(t *ast.AST) { _ = security.NewScanner().Scan(t) })},
+	"scansql":  {func(in string) (func(), bool) { return func() { _ = security.NewScanner().ScanSQL(in) }, true }},
+	"extract":  {parsed(func(t *ast.AST) { _ = gosqlx.ExtractMetadata(t) })},
+	"recovery": {func(in string) (func(), bool) { return func() { _, _ = gosqlx.ParseWithRecovery(in) }, true }},
+}
+
+// nesting wrappers for the depth ladder: the statement of depth d nests one wrapper d times (the text grows linearly with d)
+var c20DepthWrappers = map[string][2]string{
+	"not":              {"SELECT a FROM t WHERE {E}", "NOT {E}"},
+	"not-paren":        {"SELECT a FROM t WHERE {E}", "NOT ({E})"},
+	"not-and":          {"SELECT a FROM t WHERE {E}", "NOT (b = 1 AND {E})"},
+	"paren":            {"SELECT {E} FROM t", "({E})"},
+	"unary-minus":      {"SELECT {E} FROM t", "- {E}"},
+	"function-call":    {"SELECT {E} FROM t", "f({E})"},
+	"case":             {"SELECT {E} FROM t", "CASE WHEN {E} = 1 THEN 1 ELSE 0 END"},
+	"cast":             {"SELECT {E} FROM t", "CAST({E} AS INT)"},
+	"arith-right":      {"SELECT {E} FROM t", "(1 + {E})"},
+	"or-right":         {"SELECT a FROM t WHERE {E}", "(b = 1 OR {E})"},
+	"between":          {"SELECT a FROM t WHERE {E}", "(({E}) BETWEEN 1 AND 2)"},
+	"in-subquery":      {"{E}", "SELECT a FROM t WHERE a IN ({E})"},
+	"exists-subquery":  {"{E}", "SELECT a FROM t WHERE EXISTS ({E})"},
+	"scalar-subquery":  {"{E}", "SELECT a FROM t WHERE a = ({E})"},
+	"derived-table":    {"{E}", "SELECT a FROM ({E}) z"},
+	"cte-body":         {"{E}", "WITH c AS ({E}) SELECT a FROM c"},
+	"select-list-subq": {"{E}", "SELECT ({E}) FROM t"},
+}
+
+func c20DepthText(w string, d int) string {
+	fr := c20DepthWrappers[w]
+	inner := "a"
+	if fr[0] == "{E}" {
+		inner = "SELECT a FROM t WHERE b = 1"
+	}
+	for i := 0; i < d; i++ {
+		inner = strings.ReplaceAll(fr[1], "{E}", inner)
+	}
+	return strings.ReplaceAll(fr[0], "{E}", inner)
+}
+
+func init() {
+	for w := range c20DepthWrappers {
+		w := w
+		c20Families["depth:"+w] = func(d int) string { return c20DepthText(w, d) }
+	}
+	// statements that fail late: whatever was read before the failure is not read again and again
+	c20Families["broken-tail:union-chain"] = func(n int) string {
+		return "SELECT 1" + strings.Repeat(" UNION ALL SELECT 1", n/4+1) + " UNION ALL SELECT FROM"
+	}
+	c20Families["broken-tail:and-chain"] = func(n int) string {
+		return "SELECT a FROM t WHERE a = 1" + strings.Repeat(" AND a = 1", n/4+1) + " AND"
+	}
+	c20Families["broken-tail:insert-rows"] = func(n int) string { return "INSERT INTO t (a) VALUES (1)" + strings.Repeat(", (1)", n/4+1) + ", (" }
+	c20Families["broken-tail:ctes"] = func(n int) string { return "WITH c0 AS (SELECT 1)" + c20ctes(n/8+1) + " SELECT FROM" }
+	c20Families["broken-statements"] = func(n int) string { return strings.Repeat("SELECT FROM t WHERE;\n", n/4+1) }
+	c20Families["broken-statements-with-keywords"] = func(n int) string {
+		return strings.Repeat("SELECT a FROM t WHERE a IN (SELECT b FROM u WHERE c = (SELECT FROM;\n", n/8+1)
+	}
+	c20Families["broken-tail:subqueries-list"] = func(n int) string { return "SELECT a" + strings.Repeat(", (SELECT 1)", n/3+1) + ", (SELECT FROM" }
 }
 
 func runC20(c *runCtx) {
@@ -235,7 +298,49 @@ func runC20(c *runCtx) {
 	// report (the driver gives the whole run 1500 s / 7200 s)
 	deadline := c.start.Add(time.Duration(c.n(1000, 6000)) * time.Second)
 	failedPerOp := map[string]int{}
+	// the depth ladder first (short): nesting depth 12, 24, 48 of each wrapper (all below the parser's limit; the text
+	// doubles with the depth): every entry point answers, and the cost does not explode with the depth
+	depthFams := make([]string, 0, len(c20DepthWrappers))
+	for w := range c20DepthWrappers {
+		depthFams = append(depthFams, "depth:"+w)
+	}
+	sort.Strings(depthFams)
+	for _, fam := range depthFams {
+		for _, op := range ops {
+			cell := op + ":" + fam
+			var us [3]int
+			status := "ok"
+			for i, d := range []int{12, 24, 48} {
+				ans := pool.Run("x:cost", []byte(fmt.Sprintf("%s %s %d", op, fam, d)), 40*time.Second)
+				f := strings.Fields(ans)
+				if len(f) == 2 && f[0] == "rejected" {
+					status = "rejected"
+					break
+				}
+				if len(f) != 2 {
+					status = fmt.Sprintf("depth %d: %s", d, ans)
+					break
+				}
+				us[i], _ = strconv.Atoi(f[0])
+			}
+			if status == "rejected" {
+				res.stat("cell-rejected:" + cell)
+				continue
+			}
+			res.count(cell, true)
+			if status != "ok" {
+				res.fail("no-answer:"+cell, "the call does not return in time on a statement nested to this depth (a kilobyte or two of text)", map[string]any{"family": fam, "entry": op, "text_at_depth_12": c20Families[fam](12)}, map[string]any{"outcome": status, "us_at_depth_12_24_48": us})
+				continue
+			}
+			if us[2] >= 150000 && us[1] > 16*max(us[0], 1) && us[2] > 16*max(us[1], 1) {
+				res.fail("superlinear:"+cell, "the cost grows more than sixteenfold at each doubling of the nesting depth", map[string]any{"family": fam, "entry": op}, map[string]any{"us_at_depth_12_24_48": us})
+			}
+		}
+	}
 	for _, fam := range fams {
+		if strings.HasPrefix(fam, "depth:") {
+			continue
+		}
 		for _, op := range ops {
 			cell := op + ":" + fam
 			if time.Now().After(deadline) {
